@@ -20,7 +20,7 @@ import random
 from vlib import core
 
 ALLOC_WRAPS = ["malloc", "calloc", "realloc", "free", "posix_memalign"]
-CALLS = ["bn_mul", "bn_sqr", "bn_div_rem", "bn_mod", "bn_gcd_ext", "bn_gcd_lehme", "bn_mod_inv", "bn_mxp_slide",
+CALLS = ["bn_mul", "bn_mul_big", "bn_sqr_big", "bn_lsh_big", "bn_add_big", "bn_mul_dig_big", "bn_copy_big", "bn_sqr", "bn_div_rem", "bn_mod", "bn_gcd_ext", "bn_gcd_lehme", "bn_mod_inv", "bn_mxp_slide",
          "bn_mxp_monty", "bn_mxp_basic", "bn_srt", "bn_is_prime", "bn_write_str", "fp_inv", "fp_exp", "fp_srt",
          "ep_mul_basic", "ep_mul_lwnaf", "ep_mul_lwreg", "ep_mul_monty", "ep_mul_slide", "ep_mul_gen", "ep_mul_sim",
          "ep_mul_sim_gen", "ep_map", "ep_norm", "ep_write_read", "g2_mul", "pc_map", "gt_exp", "g1_map", "cp_ecdsa"]
@@ -114,9 +114,16 @@ def asan_part(conf, ev, wd, rng, quick, tier, seed):
                 e["asan"] = 1
             return e
 
-        def compress(events):
-            """ordinary events are consumed unjudged: keep every abnormal one, a sample of the rest"""
+        def compress(events, cases=cases):
+            """ordinary events are consumed unjudged: keep every abnormal one, a sample of the rest.  A driver that
+            surrounds the caller's buffer with guard bytes reports a damaged guard in its event (g = 0 / over = 1):
+            that is a write outside the object which the sanitizer cannot see (the guard absorbs it)"""
             ab = [e for e in events if e.get("op") in ("CRASH", "TIMEOUT")]
+            for e in events:
+                if e.get("g") == 0 or e.get("over") == 1:
+                    ci = e.get("i", -1)
+                    ab.append(dict(op="GUARD", i=ci, was=e.get("op"), asan=1,
+                                   case=cases[ci][:300] if 0 <= ci < len(cases) else ""))
             rest = [e for e in events if e.get("op") not in ("CRASH", "TIMEOUT")]
             return ab + [dict(op="ran", i=e.get("i", 0)) for e in rest[:300]]
         try:
